@@ -495,12 +495,12 @@ func genC06(g *mon.G) {
 
 func init() {
 	Register(&mon.Check{
-		ID:    "C06",
-		Level: "fault_enumeration",
-		Rule: "cases = seeded writing sessions (open, 1-5 puts of honest distinct blocks, Finalize) x 8 option configurations x {blockstore.OpenReadWriteFile traced through the verif hooks, storage on a tracing memfile} x {fresh file, resuming a discarded file, resuming a finalized file}; the ordered mutation trace with call/ack markers is cut at EVERY event boundary and, within every write, at torn lengths {1, mid, len-1} (quick; every byte for 1 in 8 cases) or every byte (thorough, writes ≤ 600 B); each crash image is reopened with the same roots/options and judged: on error every acknowledged section must still be intact in the file left behind; on success every acknowledged block must be present with exact bytes, nothing that was never put may be listed, in-flight blocks if present must be intact, and after two more puts and Finalize the archive must decode strictly, verify, hold all acknowledged + new blocks and nothing unknown, with exact index and header. counters.crash-images counts images",
+		ID:          "C06",
+		Level:       "fault_enumeration",
+		Rule:        "cases = seeded writing sessions (open, 1-5 puts of honest distinct blocks, Finalize) x 8 option configurations x {blockstore.OpenReadWriteFile traced through the verif hooks, storage on a tracing memfile} x {fresh file, resuming a discarded file, resuming a finalized file}; the ordered mutation trace with call/ack markers is cut at EVERY event boundary and, within every write, at torn lengths {1, mid, len-1} (quick; every byte for 1 in 8 cases) or every byte (thorough, writes ≤ 600 B); each crash image is reopened with the same roots/options and judged: on error every acknowledged section must still be intact in the file left behind; on success every acknowledged block must be present with exact bytes, nothing that was never put may be listed, in-flight blocks if present must be intact, and after two more puts and Finalize the archive must decode strictly, verify, hold all acknowledged + new blocks and nothing unknown, with exact index and header. counters.crash-images counts images",
 		Assumptions: []string{"crash model = prefix of the issued writes with the last write torn (no reordering), as the property states", "trace completeness is checked per session: replaying the trace must reproduce the final file"},
-		Gen:   genC06,
-		Run:   runC06,
+		Gen:         genC06,
+		Run:         runC06,
 		MinCover: map[string]int{"crash-images": 3000, "reopen:accepted": 500, "reopen:rejected": 100, "continued-and-finalized": 500,
 			"cut:put.section.data:torn": 50, "cut:put.section.cid:torn": 50, "cut:finalize.index": 50, "cut:finalize.header.fields:torn": 20, "cut:resume.truncate": 5, "cut:resume.unfinalize-header.fields:torn": 5, "cut:open.payload-header:torn": 10},
 	})
